@@ -168,7 +168,7 @@ def _replay_chunk(arg):
 
     sys.path.insert(0, os.environ.get("VERIF_REPO", "/repo"))
     lines, init_cls, init_val, nmax, empty = arg
-    from lib.guard import limits, time_limit
+    from lib.guard import HardTimeout, limits, time_limit
 
     limits()
     mism, eqbad, errs = [], [], []
@@ -181,7 +181,7 @@ def _replay_chunk(arg):
                 for j, a in enumerate(h):
                     r.apply(a)
                 got = r.project(nmax)
-        except (RecursionError, MemoryError, TimeoutError) as e:
+        except (RecursionError, MemoryError, HardTimeout) as e:
             errs.append({"h": h, "err": type(e).__name__})
             continue
         except Exception as e:  # a public mutator raising on a history the model allows
@@ -197,7 +197,7 @@ def _replay_chunk(arg):
         try:
             with time_limit(5.0):
                 real_eq = r.eq_pairs()
-        except (Exception, TimeoutError) as e:
+        except (Exception, HardTimeout) as e:
             errs.append({"h": h, "err": f"eq {type(e).__name__}: {e}"})
             continue
         if sorted(map(tuple, real_eq)) != sorted(map(tuple, s["eq"])):
